@@ -294,6 +294,14 @@ def run_case(scn, ctx):
                 if (scn["child"] + "/" + k[1]) in amb:
                     continue
                 require(a.get(k) == b.get(k), "metamorphic", "child record %r: %r vs %r" % (k, a.get(k), b.get(k)), None)
+        # a nested history started after the parent had recorded its files takes those files over; they are recorded there
+        # by the next folder-mode run of the parent.  Without such a run (only -sf generations followed) files that the
+        # child's own patterns skipped are legitimately 'new' for the parent - nothing to assert about verify / diff then.
+        if scn["child"] and scn.get("child_at", 0) > 0 and not any(not g.get("sf") for g in scn["gens"][scn["child_at"]:]):
+            ctx.event("child_never_resealed_by_parent")
+            for f in feats:
+                ctx.event(f)
+            return w.trace
         # edits confined to X
         xfiles = [p for p, d in X if not d and "R/" + p in w.files]
         xdirs = [p for p, d in X if d and "R/" + p in w.dirs]
